@@ -474,6 +474,11 @@ def hashes(ctx):
             def step_of(e):
                 """canonical form of a next-hash expression: the hash and ONE byte of the string -> (term in (h, BYTE), byte offset)"""
                 e = sp.expand(e)
+                carried = set()
+                for v_ in tx.sym.values():
+                    carried |= (sp.sympify(v_.off).free_symbols if isinstance(v_, Ptr) else sp.sympify(v_).free_symbols)
+                if (e.free_symbols & carried) - {h}:
+                    raise Unsupported('the step uses a value carried by another loop variable (a cached byte?): outside the fold template')
                 bs = [x for x in e.free_symbols if dom.entry_off.get(x.name, (None,))[0] == 'str']
                 if len(bs) != 1:
                     return None, None
